@@ -52,6 +52,11 @@ def gen_case(rng):
         if dur:
             pe['periodicity_duration'] = dur
         spec['assets'].append(pe)
+    if rng.random() < 0.12:
+        # a unit with on / start decisions (booleans) in both stages: the scenario copies must stay integer
+        pl = gen.gen_plant(rng, g, 'pl', [spec['assets'][0]['nodes'][0]], f, sorted(spec['prices'])[0], chp=False, simple=True, fuel=False, ramp_profiles=False)
+        pl['min_cap'] = max(pl['min_cap'], gen.r2(1. * f)); pl['start_costs'] = gen.pick(rng, [2., 10.]); pl['extra_costs'] = 0.5
+        spec['assets'].append(pl)
     spec = gen.strip_private(spec)
     T = len(gen.grid_points(g))
     k = int(gen.pick(rng, [0] + list(range(1, T)) * 3))
@@ -140,7 +145,7 @@ def run_case(rng, tier, case):
         except Exception as e:
             case.check('robust.setup_works', False, error='%s: %s' % (type(e).__name__, str(e)[:160])); res_rob = None; cs = None
     Vs = np.array([float(r_.value) for _, r_ in det])
-    tol = solve.TOL_VAL * (1 + np.abs(Vs).max())
+    tol = (solve.TOL_VAL_MIP if gen.is_mip(spec) else solve.TOL_VAL) * (1 + np.abs(Vs).max())
     nf = int(fut.sum())
     differ = not identical and k < T
     lay = False
@@ -161,7 +166,8 @@ def run_case(rng, tier, case):
                     y[fut] = x[m + (j - 1) * nf: m + j * nf]
                 r_ = solve.residuals(det[j][0], y)
                 w = max(r_['bound'], r_['rows'])
-                case.check('slp.scenario_vectors_feasible', w <= solve.TOL_FEAS, nonvacuous=nf > 0 and nf < m, scenario=j, bound=r_['bound'], rows=r_['rows_by_class'], boundary=k)
+                case.check('slp.scenario_vectors_feasible', w <= solve.TOL_FEAS and r_['int'] <= solve.TOL_INT, nonvacuous=nf > 0 and nf < m, scenario=j, bound=r_['bound'],
+                           rows=r_['rows_by_class'], integrality=r_['int'], boundary=k)
                 total += float(np.dot(det[j][0].c[fut], y[fut])) / (S + 1)
             case.check('slp.value_decomposition', abs(V + total) <= tol, nonvacuous=differ, slp_value=V, minus_expected_cost=-total, S=S)
             # cost vectors of the present part do not depend on the scenario (shared present prices)
